@@ -113,7 +113,7 @@ Definition matches_besides_version (c : coord) (group artifact : str) (classifie
   str_eqb (c_group c) group && str_eqb (c_artifact c) artifact
   && opt_eqb str_eqb (c_classifier c) classifier && str_eqb (c_type c) type_.
 
-(* the pattern ^(.*)-(\d{8}.\d{6})-(\d+)$ of to_snapshot_version, step by step as the Rust code does it *)
+(* to_snapshot_version: <anything>-<8 digits>.<6 digits>-<digits> becomes <anything>-SNAPSHOT; step by step as the Rust code does it *)
 Definition to_snapshot_version (version : str) : str :=
   match rsplit_once cMINUS version with
   | Some (before_last_hyphen, after_last_hyphen) =>
@@ -327,8 +327,8 @@ Definition print_found (d : found) : str :=
 Definition parse_found (s : str) : res found :=
   match split_once_pat s_at s with
   | None => Err
-  | Some (left, url) =>
-      match rsplit_once cCOLON left with
+  | Some (lhs, url) =>
+      match rsplit_once cCOLON lhs with
       | None => Err
       | Some (cs, ss) =>
           do c <- parse_coord cs;
